@@ -529,26 +529,8 @@ func (d *Driver) Stabilize(rounds int) {
 			// deliver all in-flight messages, oldest first
 			// "If any Message has type MsgSnap, call Node.ReportSnapshot() after it has been sent":
 			// a transfer that is no longer under way is reported as failed
-			for _, id := range c.IDs {
-				n := c.up(id)
-				if n == nil || !safeIsLeader(n.RN) {
-					continue
-				}
-				vs, _ := safeState(n.RN)
-				for _, pr := range vs.Progress {
-					if pr.State != "StateSnapshot" {
-						continue
-					}
-					inFlight := false
-					for _, nm := range c.Net {
-						if nm.M.GetType() == pb.MsgSnap && nm.M.GetFrom() == id && nm.M.GetTo() == pr.ID {
-							inFlight = true
-						}
-					}
-					if !inFlight && c.Do(Step{Act: "ReportSnapshot", Node: id, To: pr.ID, Ok: false}) {
-						progress = true
-					}
-				}
+			if d.reportStaleSnapshots() {
+				progress = true
 			}
 			msgs := append([]*NetMsg(nil), c.Net...)
 			for _, nm := range msgs {
@@ -593,6 +575,36 @@ func (d *Driver) Stabilize(rounds int) {
 	for k, id := range live {
 		c.Do(Step{Act: "Stabilized", Node: id, K: uint64(rounds), Ok: k == len(live)-1})
 	}
+}
+
+// reportStaleSnapshots: "If any Message has type MsgSnap, call Node.ReportSnapshot() after it has been
+// sent": a transfer that is no longer under way (the message was delivered, dropped or ignored) is
+// reported as failed, which lets the leader probe again.
+func (d *Driver) reportStaleSnapshots() bool {
+	c := d.c
+	did := false
+	for _, id := range c.IDs {
+		n := c.up(id)
+		if n == nil || !safeIsLeader(n.RN) {
+			continue
+		}
+		vs, _ := safeState(n.RN)
+		for _, pr := range vs.Progress {
+			if pr.State != "StateSnapshot" {
+				continue
+			}
+			inFlight := false
+			for _, nm := range c.Net {
+				if nm.M.GetType() == pb.MsgSnap && nm.M.GetFrom() == id && nm.M.GetTo() == pr.ID {
+					inFlight = true
+				}
+			}
+			if !inFlight && c.Do(Step{Act: "ReportSnapshot", Node: id, To: pr.ID, Ok: false}) {
+				did = true
+			}
+		}
+	}
+	return did
 }
 
 // mostUpToDate returns the running voter with the largest (last term, last index).
